@@ -40,6 +40,7 @@ type memConn struct {
 	readChunk    int // > 0: a Read returns at most this many bytes (TCP segmentation)
 	t0           time.Time
 	armsTaken    int
+	writeDelay   time.Duration // the peer drains slowly: every Write blocks this long before its bytes are taken
 }
 
 func newMemConn(id int, remote net.Addr) *memConn {
@@ -90,6 +91,10 @@ func (c *memConn) Read(p []byte) (int, error) {
 var errConnReset = errors.New("read: connection reset by peer")
 
 func (c *memConn) Write(p []byte) (int, error) {
+	if c.writeDelay > 0 {
+		// like a full socket buffer: the caller's bytes stay in the caller's buffer while it waits
+		time.Sleep(c.writeDelay)
+	}
 	c.mu.Lock()
 	defer c.mu.Unlock()
 	if c.serverClosed {
